@@ -464,6 +464,25 @@ class Sx:
             return None
         return (ps, back) if all(p.end in ('return', 'panic') for p in ps) and any(p.end == 'return' for p in ps) else None
 
+    def resolved(self, blk, t, st):
+        """a call through a function pointer: the driver exports the pointer's type but not the operand.  MIR evaluates the callee
+        into a temporary of exactly that type right before the call, so the callee is the value of the last local of that type
+        assigned in the block; when that value is a function named by a constant (an element of a table of functions, a `let f =
+        write_rows;`), the call is the call of that function.  Otherwise the terminator is left as it is (an opaque call)."""
+        ty = t['f'][len('<indirect:'):-1].strip()
+        for s_ in reversed(blk['st']):
+            if 'dst' not in s_ or s_['dst']['p']: continue
+            l = s_['dst']['l']
+            if l < len(self.b.locals) and self.b.locals[l].strip() == ty:
+                v = sx_strip(self.local(l, st))
+                while v[0] == 'cast': v = sx_strip(v[2])
+                if v[0] == 'const':
+                    nm = v[1].strip(); nm = nm[6:] if nm.startswith('const ') else nm
+                    if self.F.bodies.get(nm) is not None or self.F.bodies.get(strip_generic_args(nm)) is not None:
+                        return dict(t, f=nm, r=nm, ri={'item': strip_generic_args(nm).split('::')[-1]})
+                break
+        return t
+
     def call(self, bi, t, args, st):
         name = t['r'] or t['f']; ri = t.get('ri') or {}
         item = ri.get('item') or (t.get('rp') or t.get('fp') or name).split('::')[-1]
@@ -607,7 +626,10 @@ class Sx:
         if item in SX_IDENT and args:
             return self.deref(args[0], st) if args[0][0] in ('ref', 'lref') else args[0]
         tr = ri.get('trait') or ''
-        if args and tr == 'std::iter::Iterator' and item == 'next': self.pulled(node, st)
+        if args and item == 'next' and (tr == 'std::iter::Iterator' or name.endswith('std::iter::Iterator>::next')):
+            r = self.table_item(node, st)
+            if r is not None: return r
+            self.pulled(node, st)
         if args and ((tr == 'std::iter::Iterator' and item in SX_CONSUMERS) or (tr.endswith('FromIterator') and item == 'from_iter') or (tr.endswith('Extend') and item == 'extend' and len(args) == 2)):
             self.pipeline(node, args[1] if item == 'extend' else args[0], st)
         return node
@@ -654,6 +676,21 @@ class Sx:
         into an unknown collection, ...): recorded as event ('yield', value | None, bb, flags, consumer name, base)"""
         v, flags, cur, fn = self.chain(node, it, st)
         if fn: st.events.append(('yield', v, node[4], flags, node[2], cur))
+
+    def table_item(self, node, st):
+        """`it.next()` where `it` walks a table written out in the code (`[a, b, c]`, by value or through iter()): the n-th
+        execution of the call on a path yields the n-th element, then None -- a loop over such a table is unrolled (the bound on
+        block visits is raised to the length of the table)"""
+        cur = node[3][0]; byref = False; n = 0
+        while cur[0] in ('ref', 'lref') and n < 6: cur = self.deref(cur, st); n += 1          # `&mut &mut iter`
+        while cur[0] == 'call' and cur[3] and cur[1] in ('into_iter', 'iter', 'copied', 'cloned', 'by_ref', 'deref', 'as_slice', 'as_ref', 'unsize'):
+            byref = (byref or cur[1] == 'iter') and cur[1] not in ('copied', 'cloned'); cur = sx_strip(cur[3][0])
+        while cur[0] == 'cast': cur = sx_strip(cur[2])
+        if not (cur[0] == 'agg' and cur[1] == 'array' and 0 < len(cur[3]) <= 16): return None
+        k = node[5] - 1
+        self.max_visits = max(self.max_visits, len(cur[3]) + 1)
+        if k < len(cur[3]): return ('agg', 'std::option::Option::Some', ('0',), (('ref', cur[3][k]) if byref else cur[3][k],))
+        return ('agg', 'std::option::Option::None', (), ())
 
     def pulled(self, node, st):
         """`it.next()` on an adaptor chain the normal form left as it is (a function passed by name instead of a closure:
@@ -728,6 +765,7 @@ class Sx:
                     st.bb = t['t']; continue
                 if k == 'call':
                     args = [self.op(a, st) for a in t['args']]
+                    if (t['f'] or '').startswith('<indirect:'): t = self.resolved(blk, t, st)
                     sub = self.entered(t, args, st) if t['t'] >= 0 else None
                     if sub is not None:
                         for p in sub[0]:
@@ -1078,6 +1116,34 @@ def keyword_effects(ctx, rule, b, true, val, flags=None, objrow=None):
     return out
 
 
+class NumbersParse(SxOracle):
+    """the numbers of the line parse"""
+    def variant(self, sx, v, st):
+        return 'Ok' if v[0] == 'call' and v[1] == 'parse' else None
+
+
+def all_pairs_processed(ctx, rule, b, what):
+    """every (row, value) pair of a data line is processed: the line's fields (parameter 2) are walked by a loop, no adaptor drops pairs, and nothing leaves the loop with success before the last pair (a `return Ok(..)` / `break` on
+    a path without error where `continue` is meant) -- decided on the paths of one iteration: each ends at the loop header, in an
+    error, or in a panic"""
+    loops = [lo for lo in T.for_loops(b) if 2 in ctx.S.slice_operand(b, lo[0].args[0]).params]
+    loops = [lo for lo in loops if any(c.bb in lo[4] and c.item == 'parse' for c in b.calls)] or loops      # (the number may be parsed in a closure / helper)
+    loops = sorted(loops, key=lambda lo: -len(lo[4]))[:1]
+    if not loops:
+        ctx.bad(rule, 'T-LOOPMUST', b.name, 'no loop over the (row, value) pairs of %s' % what, b.site()); return
+    lo = loops[0]; nextc, header, some_bb, none_bb, blocks = lo
+    restr = sorted({x.item for x in ctx.S.slice_operand(b, nextc.args[0]).call_objs if x.item in RESTRICTING and x.item not in ('step_by', 'skip') and 'Iterator' in (x.trait or '')})
+    ps = sx_loop_paths(ctx, rule, 'T-LOOPMUST', b, NumbersParse(), lo)
+    if ps is None: return
+    sx = Sx(ctx, b, NumbersParse()); early = []
+    for p_ in ps:
+        if p_.end == 'return' and sx.variant(p_.value if p_.value is not None else ('undef', 0), p_) != 'Err': early.append('returns %s' % sx_str(p_.value, 2) if p_.value is not None else 'returns')
+        elif p_.end == 'stop' and p_.bb != header: early.append('leaves the loop')
+    # (a `break` shows as a path that reaches the code after the loop: sx_loop_paths stops at the header only, so it ends in return)
+    ctx.check(not restr and not early, rule, 'T-LOOPMUST', b.name,
+              ('the loop over the pairs of %s is restricted by %s' % (what, restr)) if restr else 'after a pair of %s has been processed without error the function %s instead of going on to the next pair' % (what, sorted(set(early))[0] if early else ''), b.site(nextc.bb))
+
+
 def ranges_rules(ctx, b):
     """the RANGES sign table, decided on values:   row type   sign of r     sets                         rhs of the second row
                                                    G          + or -        new in le                    b + |r|
@@ -1127,6 +1193,7 @@ def ranges_rules(ctx, b):
         ctx.check(not rows[key], R + '/' + key, 'T-BRANCHFX', b.name, 'RANGES on a %s row: %s' % (key, '; '.join(sorted(set(rows[key]))[:3])), b.site(nextc.bb), cases=len(samples))
     ctx.check(seen > 0 and not removed, R + '/E-becomes-two-inequalities', 'T-BRANCHFX', b.name, 'a ranged E row is not removed from the equalities (%s)' % ', '.join(removed[:3]), b.site(nextc.bb))
     ctx.check(seen > 0 and not second, R + '/second-row-created', 'T-BRANCHFX', b.name, 'the second row (coefficients copied from the ranged row, and its right-hand side) is not created (%s)' % ', '.join(second[:3]), b.site(nextc.bb))
+    all_pairs_processed(ctx, R + '/all-pairs-processed', b, 'a RANGES line')
     # the name of the generated row is one no row has yet: a declared row (or an earlier generated one) is never overwritten
     ctx.check(seen > 0 and not overwrites, R + '/second-row-name-unused', 'T-GUARD', b.name, 'the row generated for a ranged row is inserted under a name that has not been tested to be absent from the rows read so far: a declared row of that name would be lost (%s)' % ', '.join(overwrites[:3]), b.site(nextc.bb))
     # every pair of the line is processed
@@ -1226,6 +1293,7 @@ def column_rules(ctx, b):
                 if to_c != objrow or to_a == objrow: objp.append('%s: %s' % (case, sorted(e for e in r['eff'] if e[0] in ('c', 'a[row]', 'a'))))
     ctx.check(n > 0 and not memb, 'C17.keywords/markers/membership', 'T-BRANCHFX', b.name, 'columns inside INTORG/INTEND are not recorded as integer (others as real): %s' % '; '.join(memb[:2]), b.site())
     ctx.check(n > 0 and vars_ok, 'C17.columns/vars', 'T-BRANCHFX', b.name, 'column is not recorded in vars', b.site())
+    all_pairs_processed(ctx, 'C17.columns/all-pairs-processed', b, 'a COLUMNS line')
     ctx.check(n > 0 and not objp, 'C17.columns/objective-vs-constraint', 'T-BRANCHFX', b.name, 'entries of the objective row must go to c, all others to the declared row of a: %s' % '; '.join(objp[:2]), b.site())
 
 
@@ -1456,13 +1524,18 @@ def parser_rules(ctx):
     # ---- rhs
     b = ctx.method('C17.rhs/anchor', ST, 'read_rhs_field')
     if b is not None:
-        eff = table_effects(ctx, b, b.live)
-        ctx.check(('b', 'insert', 'value') in eff, 'C17.rhs/stores-b', 'T-BRANCHFX', b.name, 'RHS value is not stored in b', b.site())
+        # on values: every successfully read line that had a (row, value) pair stored the parsed number in b -- the pair may be taken
+        # apart in a helper, destructured from a tuple, parsed before or after the row name is built
+        res = keyword_effects(ctx, 'C17.rhs/stores-b', b, set(), 1.5)
+        if res is not None:
+            res = [r for r in res if r['path'].calls('parse')]
+            ctx.check(bool(res) and all(('b', 'insert', 'value') in r['eff'] for r in res), 'C17.rhs/stores-b', 'T-BRANCHFX', b.name, 'RHS value is not stored in b', b.site())
         def is_b_insert(c): return c.item == 'insert' and mps_table_of(b, c.args[0]) == 'b'
         los = [lo for lo in T.for_loops(b) if any(c.bb in lo[4] and is_b_insert(c) for c in b.calls)]
         skipped = [lo for lo in los if not T.must_pass(b, lo[2], {lo[1]}, {c.bb for c in b.calls if c.bb in lo[4] and is_b_insert(c)})]
         restr = sorted({x.item for lo in los for x in ctx.S.slice_operand(b, lo[0].args[0]).call_objs if x.item in RESTRICTING and x.item not in ('step_by', 'skip') and 'Iterator' in (x.trait or '')})
         ctx.check(bool(los) and not skipped, 'C17.rhs/every-pair', 'T-LOOPMUST', b.name, 'a (row, value) pair of an RHS line can be passed without b.insert(row, value)' if los else 'no loop over the pairs of an RHS line', b.site())
+        all_pairs_processed(ctx, 'C17.rhs/all-pairs-processed', b, 'an RHS line')
         ctx.check(bool(los) and not restr, 'C17.rhs/every-pair/all-items', 'T-LOOPMUST', b.name, 'the loop over the pairs is restricted by %s' % restr, b.site())
     # ---- ranges: the RANGES sign table
     b = ctx.method('C17.ranges/anchor', ST, 'read_range_field')
@@ -1695,8 +1768,9 @@ def bound_default_rules(ctx, rule, bb):
     decided on the values of `lower` / `upper` of the returned Bound for every combination of table entries"""
     inf = float('inf')
     looked = set(); probs = []; neg = []; n = 0
-    for l in (None, 2.5, -1.0):
-        for u in (None, -3.0, 0.5, 4.0):              # u == 0 is left open: the property speaks of a negative upper bound
+    # (an explicit lower bound of 0 is sampled as well: "no LO record" is a fact about the table, not about the value -- seed C18-12)
+    for l in (None, 2.5, -1.0, 0.0):
+        for u in (None, -3.0, 0.5, 4.0) + ((0.0,) if l == 0.0 else ()):      # u == 0 without a lower bound is left open: the property speaks of a negative upper bound
             orc = BoundCase(l, u)
             ps = sx_paths(ctx, rule + '/table', 'T-BRANCHFX', bb, orc)
             if ps is None: return
@@ -2030,7 +2104,7 @@ def check(ctx):
     parser_rules(ctx); convert_rules(ctx)
     # decided instances per family on the unchanged tree (instances are per clause, not per loop / call site, so that the
     # count does not depend on how the code is laid out)
-    for fam, n in {'C17.bounds': 19, 'C17.columns': 2, 'C17.convert': 6, 'C17.convert.cover': 15, 'C17.convert.defaults': 5, 'C17.convert.kind': 2,
+    for fam, n in {'C17.bounds': 19, 'C17.columns': 3, 'C17.convert': 6, 'C17.convert.cover': 15, 'C17.convert.defaults': 5, 'C17.convert.kind': 2,
                    'C17.convert.rows': 5, 'C17.convert.sense': 1, 'C17.convert.sign': 6, 'C17.convert.terms': 1, 'C17.convert.vars': 5, 'C17.defaults': 1, 'C17.entry': 2,
-                   'C17.keywords': 33, 'C17.lines': 3, 'C17.names': 2, 'C17.ranges': 8, 'C17.rhs': 3, 'C17.rows': 4}.items():
+                   'C17.keywords': 33, 'C17.lines': 3, 'C17.names': 2, 'C17.ranges': 9, 'C17.rhs': 4, 'C17.rows': 4}.items():
         ctx.floor(fam, n)
